@@ -30,6 +30,16 @@ SPEC_FN = ['c26-spec-copy-fn']
 # contracts
 # ---------------------------------------------------------------------------------------------------------------
 DOC = 'old(self).document'
+LEGEND_PUSH_PROOF = '''proof {
+                if raw_in_legend(typ, modifiers) && legend_inv(old(self).data@) {
+                    assert(self.data@.drop_last() =~= old(self).data@);
+                    assert(self.data@ =~= old(self).data@.push(self.data@.last()));
+                    lemma_legend_inv_push(old(self).data@, self.data@.last());
+                }
+            }'''
+KEYS = 'vstd::std_specs::hash::obeys_key_model::<TextSize>()'
+FRAME = 'final(self).document == old(self).document && final(self).multi_line_support == old(self).multi_line_support /*@C26.tokens.push.frame*/'
+INV = 'legend_inv(old(self).data@) ==> legend_inv(final(self).data@) /*@C26.legend.pushed-in-legend*/'
 PUSH_DATA = fn(
     'SemanticBuilder', 'push_data',
     requires='''vstd::std_specs::hash::obeys_key_model::<TextSize>(),
@@ -47,7 +57,9 @@ PUSH_DATA = fn(
                 && final(self).data@.drop_last() == old(self).data@
                 && pushed_ok(final(self).data@.last(), old(self).multi_line_support, s, e, typ, modifiers),
             _ => true,
-        }) /*@C26.tokens.multiline-split*/''' % {'d': DOC},
+        }) /*@C26.tokens.multiline-split*/,
+        // builder invariant: a type index / modifier bitset inside the legend keeps every held piece inside the legend
+        raw_in_legend(typ, modifiers) && legend_inv(old(self).data@) ==> legend_inv(final(self).data@) /*@C26.legend.pushed-in-legend*/''' % {'d': DOC},
     iter_names={0: 'it'},
     loops={0: '''invariant
                 start_line < end_line,
@@ -60,13 +72,15 @@ PUSH_DATA = fn(
         # `start_line + 1` of the loop header cannot overflow
         (r'let end_col = end_col as u32;', 'after',
          'proof { axiom_line_col_monotonic(self.document, range.start, range.end); }'),
-        (r'for i in start_line \+ 1\.\.end_line', 'before',
+        (r'for i in start_line \+ \d+\.\.end_line', 'before',
          'proof { assert(start_line < end_line) /*@C26.tokens.split-no-overflow*/; }'),
         (r'self\.data\s*\.push\(SemanticTokenData::MultiLine\(multi_line_data\)\);', 'before',
          '''proof {
                 assert(multi_line_data@.len() == end_line - start_line + 1);
-                assert(split_ok(multi_line_data@, start_line, start_col, end_line, end_col, typ, modifiers));
+                assert(split_ok(multi_line_data@, start_line, start_col, end_line, end_col, typ, modifiers)) /*@C26.tokens.multiline-split*/;
             }'''),
+        (r'\.push\(SemanticTokenData::MultiLine\(multi_line_data\)\);', 'after', LEGEND_PUSH_PROOF),
+        (r'length: end_col\.saturating_sub\(start_col\),\s*typ,\s*modifiers,\s*\}\)\);', 'after', LEGEND_PUSH_PROOF),
     ],
 )
 
@@ -81,7 +95,9 @@ BUILD = fn(
         // length / type index / modifier bitset unchanged
         exists|sorted: Seq<BasicSemanticTokenData>| encodes(flat(self.data@), sorted, r@) /*@C26.tokens.decode-inverse*/,
         // hence: decoded token positions are ordered
-        forall|i: int, j: int| 0 <= i <= j < r@.len() ==> pos_le(#[trigger] decode(r@, i), #[trigger] decode(r@, j)) /*@C26.tokens.decode-ordered*/''',
+        forall|i: int, j: int| 0 <= i <= j < r@.len() ==> pos_le(#[trigger] decode(r@, i), #[trigger] decode(r@, j)) /*@C26.tokens.decode-ordered*/,
+        // type index and modifier bitset of every emitted token are inside the advertised legend (builder invariant)
+        legend_inv(self.data@) ==> forall|i: int| 0 <= i < r@.len() ==> token_in_legend(#[trigger] r@[i]) /*@C26.legend.tokens-in-legend*/''',
     body_first='let ghost src = self.data@;',
     iter_names={0: 'it', 1: 'it2', 2: 'it3'},
     loops={
@@ -118,7 +134,7 @@ BUILD = fn(
         (r'let col_diff = ', 'before',
          'proof { assert(token_data.col >= prev_col) /*@C26.tokens.no-underflow*/; }'),
         (r'result\.push\(SemanticToken \{', 'before', 'let ghost old_r = result@;'),
-        (r'token_modifiers_bitset: token_data\.modifiers,\s*\}\);', 'after',
+        (r'token_modifiers_bitset: [^,]*,\s*\}\);', 'after',
          '''proof {
                 assert(result@ =~= old_r.push(result@.last()));
                 assert forall|i: int| 0 <= i < it3.index@ implies decode(result@, i) == tok_pos(#[trigger] sorted[i]) && carries(result@[i], sorted[i]) by {
@@ -130,7 +146,13 @@ BUILD = fn(
          '''proof {
                 assert(encodes(pushed, sorted, result@));
                 lemma_encoded_is_ordered(pushed, sorted, result@);
+                if legend_inv(src) { lemma_encoded_in_legend(pushed, sorted, result@); }
             }'''),
+        # the closure's `ensures` (C26.tokens.sort-key) restated at its two return points
+        (r'return character1\.cmp\(&character2\);', 'before',
+         'proof { assert(a.line == b.line && character1 == a.col && character2 == b.col) /*@C26.tokens.sort-key*/; }'),
+        (r'line1\.cmp\(&line2\)\s*\}\);', 'before',
+         'proof { assert(a.line != b.line && line1 == a.line && line2 == b.line) /*@C26.tokens.sort-key*/; }'),
     ],
 )
 
@@ -166,10 +188,8 @@ ITEMS = {
             forall|k: int| 0 <= k < r@.len() ==> #[trigger] r@[k] == Self::sp_all_modifier_kinds()[k].sp_to_modifier() /*@C26.legend.modifier-legend*/''',
         proof=[(r'vx_into_iter_map_collect\(', 'before',
                 '''proof {
-                    // the vec literal is the literal of sp_all_modifier_kinds (same repository text)
-                    assert forall|m: SemanticTokenModifierKind| Self::sp_all_modifier_kinds().contains(m) implies is_legend_const(m) by {
-                        let k = choose|k: int| 0 <= k < Self::sp_all_modifier_kinds().len() && Self::sp_all_modifier_kinds()[k] == m;
-                    }
+                    // every entry of the vec literal (= the literal of sp_all_modifier_kinds, same repository text) is a legend const
+                    assert forall|m: SemanticTokenModifierKind| Self::sp_all_modifier_kinds().contains(m) implies #[trigger] is_legend_const(m) by { }
                 }''')]),
     MK + '::bitor': {
         'src': {'file': F, 'kind': 'fn', 'impl': 'BitOr for ' + MK, 'name': 'bitor'}, 'pub': False, 'ret': 'r',
@@ -185,7 +205,49 @@ ITEMS = {
     'SemanticTokenData': {'src': {'file': F, 'kind': 'enum', 'name': 'SemanticTokenData'}, 'rules': ['vis-pub']},
     'SemanticBuilder': {'src': {'file': F, 'kind': 'struct', 'name': 'SemanticBuilder'},
                         'rules': [('struct-fields', {'keep': ['document', 'multi_line_support', 'data', 'seen_positions']})]},
+    'SemanticBuilder::new': fn(
+        'SemanticBuilder', 'new', rules=['c26-drop-projected-field-init'], ret='r',
+        ensures='''r.document == document && r.multi_line_support == multi_line_support && r.data@.len() == 0 && r.seen_positions@ == Set::<TextSize>::empty() /*@C26.tokens.new*/,
+        legend_inv(r.data@) /*@C26.legend.pushed-in-legend*/''',
+        proof=[(r'\n\s*Self \{', 'before', 'proof { assert(flat(Seq::<SemanticTokenData>::empty()) =~= Seq::empty()); }')]),
     'SemanticBuilder::push_data': PUSH_DATA,
+    'SemanticBuilder::push': fn(
+        'SemanticBuilder', 'push',
+        requires=KEYS + ', sp_doc_ok(old(self).document), range_in_doc(old(self).document, sp_token_range(token))',
+        ensures=FRAME + ',\n        ' + INV,
+        body_first='proof { lemma_type_index_in_legend(ty); }'),
+    'SemanticBuilder::push_with_modifier': fn(
+        'SemanticBuilder', 'push_with_modifier',
+        requires=KEYS + ', sp_doc_ok(old(self).document), range_in_doc(old(self).document, sp_token_range(token)), legend_bits(modifier)',
+        ensures=FRAME + ',\n        ' + INV,
+        body_first='proof { lemma_type_index_in_legend(ty); }'),
+    'SemanticBuilder::push_at_position': fn(
+        'SemanticBuilder', 'push_at_position', rules=['c26-closure-contract-to-u32-ref'],
+        requires=KEYS + ', sp_doc_ok(old(self).document), sp_in_doc(old(self).document, position), opt_legend_bits(modifiers)',
+        ensures=FRAME + ',\n        ' + INV + ''',
+        final(self).seen_positions@ == old(self).seen_positions@.insert(position) /*@C26.tokens.push.seen*/,
+        (old(self).seen_positions@.contains(position) || sp_pos(old(self).document, position) is None)
+            ==> final(self).data@ == old(self).data@ /*@C26.tokens.nothing-pushed*/,
+        (!old(self).seen_positions@.contains(position) && sp_pos(old(self).document, position) is Some) ==> ({
+            let lc = sp_pos(old(self).document, position)->Some_0;
+            &&& final(self).data@.len() == old(self).data@.len() + 1
+            &&& final(self).data@.drop_last() == old(self).data@
+            &&& final(self).data@.last() matches SemanticTokenData::Basic(b) && b.line == lc.0 && b.col == lc.1 && b.length == length
+                    && b.typ == ty.sp_to_u32() && b.modifiers == opt_bits(modifiers)
+        }) /*@C26.tokens.push-at-position*/''',
+        body_first='proof { lemma_type_index_in_legend(ty); }',
+        proof=[(r'modifiers: modifiers\.as_ref\(\)[^;]*\}\)\);', 'after', '''proof {
+                if legend_inv(old(self).data@) {
+                    assert(self.data@.drop_last() =~= old(self).data@);
+                    assert(self.data@ =~= old(self).data@.push(self.data@.last()));
+                    lemma_legend_inv_push(old(self).data@, self.data@.last());
+                }
+            }''')]),
+    'SemanticBuilder::push_at_range': fn(
+        'SemanticBuilder', 'push_at_range', rules=['c26-closure-contract-to-u32'],
+        requires=KEYS + ', sp_doc_ok(old(self).document), range_in_doc(old(self).document, range), opt_legend_bits(modifiers)',
+        ensures=FRAME + ',\n        ' + INV,
+        body_first='proof { lemma_type_index_in_legend(ty); }'),
     'SemanticBuilder::build': BUILD,
 }
 
@@ -216,6 +278,16 @@ UNIT = {
          '|m: SemanticTokenModifierKind| -> (r: SemanticTokenModifier) requires is_legend_const(m) ensures r == m.sp_to_modifier() { m.to_modifier() }',
          'contract overlay on a closure: parameter type, named result, `requires`/`ensures` are added, the body expression '
          'is kept verbatim; Verus checks the contract against the body and the `requires` at the (helper\'s) call'),
+        ('c26-drop-projected-field-init', r'\n\s*string_special_range: HashSet::new\(\),', '',
+         'struct projection (rule struct-fields drops `string_special_range`, which none of the functions under proof reads): '
+         'its initialiser is dropped from the struct literal in `new`'),
+        ('c26-closure-contract-to-u32', r'\|m\| m\.to_u32\(\)',
+         '|m: SemanticTokenModifierKind| -> (r: u32) ensures r == m.0 { m.to_u32() }',
+         'contract overlay on the closure passed to Option::map (vstd specifies map through the closure\'s contract): '
+         'parameter type, named result and `ensures` added, body kept verbatim and checked against it'),
+        ('c26-closure-contract-to-u32-ref', r'\|m\| m\.to_u32\(\)',
+         '|m: &SemanticTokenModifierKind| -> (r: u32) ensures r == m.0 { m.to_u32() }',
+         'same overlay for the closure after `.as_ref()` (parameter is a reference)'),
         ('c26-closure-contract-cmp', r'\|a, b\| \{',
          '|a: &BasicSemanticTokenData, b: &BasicSemanticTokenData| -> (o: Ordering)\n'
          '            ensures o == lex_cmp(*a, *b) /*@C26.tokens.sort-key*/\n        {',
@@ -238,7 +310,7 @@ UNIT = {
         r'external_body', r'\buninterp\b', r'axiom_line_col_monotonic',
         r'assume_specification<T, F: FnMut\(&T, &T\) -> Ordering>\[ <\[T\]>::sort_unstable_by \]',
     ],
-    'min_obligations': 30,
+    'min_obligations': 100,
     'trusted': [
         '<[T]>::sort_unstable_by: std doc contract as assume_specification (result is a permutation of the input and is '
         'ascending w.r.t. the comparator; precondition: the comparator is a total order — proved for the real closure)',
@@ -255,6 +327,8 @@ UNIT = {
         'lsp_types::{SemanticTokenType, SemanticTokenModifier} shimmed as opaque id newtypes: the 23 + 10 predefined '
         'constants are pairwise distinct (distinct string literals in emmy_lsp_types 0.1.0); SemanticTokenType::new(tag) is '
         'an uninterpreted function of the tag; lsp_types::SemanticToken transcribed (five u32 fields)',
+        'LuaDocument::to_lsp_position shim: Some(p) with (p.line, p.character) == sp_pos(doc, off) — proved in unit c22_lineindex '
+        '(C22.doc.to_lsp_position); LuaSyntaxToken opaque with text_range() an uninterpreted function of the token',
         'text-size shim (units/common/textsize.rs)',
         'frame by privacy: the tuple field of SemanticTokenModifierKind is module-private in the repository, so only the ten '
         'consts, empty(), bitor, bitor_assign construct values (rule c26-tuple-field-pub matches only while it is private)',
@@ -264,8 +338,9 @@ UNIT = {
         'in-document extent of token LENGTHS: the non-last pieces of a multi-line split have the sentinel length 9999, and '
         'with multi_line_support a token spanning lines gets length end_col.saturating_sub(start_col); neither is checked '
         'against the line length',
-        'the wrappers push / push_with_modifier / push_at_position / push_at_range (they pass ty.to_u32() and '
-        'modifier.to_u32() or 0 to push_data / the data vector): not under contract here',
+        'the handlers that call push / push_with_modifier / push_at_position / push_at_range: that they pass ranges of the '
+        'document\'s own tokens and modifier values built from the ten consts (the preconditions of those four fns) is by '
+        'reading / by privacy of the tuple field, not checked here',
         'columns are counts of Unicode scalar values (unit c22), not UTF-16 code units (property C23)',
     ],
     'samples': [
@@ -273,6 +348,7 @@ UNIT = {
         'lemma_modifier_consts_in_legend: 10 modifier kinds, kind k == bit k, all < 2^10; all_modifiers()[k] == to_modifier(kind k)',
         'build: exists sorted. permutation(flat(data), sorted) && lex_sorted(sorted) && forall i. decode(r, i) == (sorted[i].line, sorted[i].col) && carries(r[i], sorted[i])',
         'push_data: multi-line split = one piece per line start_line..=end_line, first at start_col, others at 0, last length end_col',
+        'new / push / push_with_modifier / push_at_position / push_at_range keep legend_inv(data); build: legend_inv(data) ==> every emitted token has token_type < all_types().len() and token_modifiers_bitset < 2^10',
     ],
     'mutants': [
         # legend (mutate the spec copy: the exec copy then disagrees too, but the property lemma is what must die)
@@ -293,6 +369,11 @@ UNIT = {
         {'name': 'modifier-legend-order', 'item': MK + '::sp_all_modifier_kinds',
          'pattern': r'Self::STATIC,(\s*)Self::ABSTRACT,', 'repl': r'Self::ABSTRACT,\1Self::STATIC,',
          'expect': r'C26\.legend\.modifier-bit-k-is-entry-k'},
+        {'name': 'to-modifier-misses-a-const', 'item': MK + '::to_modifier',
+         'pattern': r'Self::ASYNC => SemanticTokenModifier::ASYNC,\s*', 'repl': '',
+         # Verus reports a reachable `unreachable!` as "precondition not satisfied" with its primary span inside vstd
+         # (std_specs/core.rs), so the driver cannot attribute it to the item; the drift from the spec copy is labelled
+         'expect': r'precondition-not-satisfied|to_modifier:.*C26\.legend\.spec-is-code'},
         {'name': 'bitor-sets-foreign-bit', 'item': MK + '::bitor',
          'pattern': r'self\.0 \| rhs\.0', 'repl': 'self.0 | rhs.0 | 1024', 'expect': r'C26\.legend\.modifier-bits-in-legend|postcondition'},
         # encoder
@@ -306,6 +387,13 @@ UNIT = {
          'expect': r'C26\.tokens\.sort-key'},
         {'name': 'drops-length', 'item': 'SemanticBuilder::build',
          'pattern': r'length: token_data\.length,', 'repl': 'length: 1,', 'expect': r'C26\.tokens\.decode-inverse'},
+        {'name': 'push-type-index-off-by-one', 'item': 'SemanticBuilder::push',
+         'pattern': r'ty\.to_u32\(\)', 'repl': '(ty.to_u32() + 1)', 'expect': r'C26\.legend\.pushed-in-legend'},
+        {'name': 'push-at-range-foreign-modifier-bit', 'item': 'SemanticBuilder::push_at_range',
+         'pattern': r'\.unwrap_or\(0\)', 'repl': '.unwrap_or(1 << 10)', 'expect': r'C26\.legend\.pushed-in-legend'},
+        {'name': 'encoder-touches-modifiers', 'item': 'SemanticBuilder::build',
+         'pattern': r'token_modifiers_bitset: token_data\.modifiers,', 'repl': 'token_modifiers_bitset: token_data.modifiers | 1024,',
+         'expect': r'C26\.tokens\.decode-inverse'},
         {'name': 'split-middle-at-start-col', 'item': 'SemanticBuilder::push_data',
          'pattern': r'line: i,(\s*)col: 0,', 'repl': r'line: i,\1col: start_col,', 'expect': r'C26\.tokens\.multiline-split'},
         {'name': 'split-last-length-9999', 'item': 'SemanticBuilder::push_data',
